@@ -564,7 +564,36 @@ impl Reader {
         writer_guid,
         writer_seq_num,
       ),
-      Err(e) => debug!("Parsing DATA to DDSData failed: {}", e),
+      Err(e) => {
+        debug!("Parsing DATA to DDSData failed: {}", e);
+        self.skip_unusable_data(writer_guid, writer_seq_num);
+      }
+    }
+  }
+
+  // A DATA submessage that cannot be turned into a cache change (e.g. it has neither
+  // payload nor key hash, like the end marker of a coherent set) is never going to become
+  // available. Treat its sequence number like a GAP, so that a Reliable stream does not
+  // wait for it forever and hold back all the later samples of the writer.
+  fn skip_unusable_data(&mut self, writer_guid: GUID, writer_sn: SequenceNumber) {
+    if self.like_stateless
+      || writer_sn < SequenceNumber::new(1)
+      || !writer_sn.is_acceptable()
+    {
+      return;
+    }
+    let all_ackable_before = match self.matched_writer_mut(writer_guid) {
+      Some(writer_proxy) => {
+        writer_proxy.set_irrelevant_change(writer_sn);
+        writer_proxy.all_ackable_before()
+      }
+      None => return,
+    };
+    let marker_moved = self
+      .acquire_the_topic_cache_guard()
+      .mark_reliably_received_before(writer_guid, all_ackable_before);
+    if marker_moved {
+      self.notify_cache_change();
     }
   }
 
